@@ -19,6 +19,10 @@ CONFIGS = {
     # Arduino mocks
     "arduino": {"arduino": True, "defines": D(ARDUINOJSON_ENABLE_ARDUINO_STRING=1, ARDUINOJSON_ENABLE_ARDUINO_STREAM=1, ARDUINOJSON_ENABLE_ARDUINO_PRINT=1, ARDUINOJSON_ENABLE_PROGMEM=1)},
     "tsan": {"tsan": True, "defines": []},
+    # free macros no other row touches: no automatic shrinkToFit, no alignment padding, another default nesting limit,
+    # other thresholds for the exponent notation of printed floats
+    "misc1": {"defines": D(ARDUINOJSON_AUTO_SHRINK=0, ARDUINOJSON_ENABLE_ALIGNMENT=0, ARDUINOJSON_DEFAULT_NESTING_LIMIT=4,
+                           ARDUINOJSON_POSITIVE_EXPONENTIATION_THRESHOLD="1e5", ARDUINOJSON_NEGATIVE_EXPONENTIATION_THRESHOLD="1e-3")},
 }
 
 
@@ -467,3 +471,29 @@ PROPS["C20"]["rule"] += "; regression witness cold_start (both builds): a fresh 
 PROPS["C06"]["rule"] += "; rows g1_16_4_1_f32 / g1_16_4_1_ll0 (extension slots under USE_DOUBLE=0 / USE_LONG_LONG=0)"
 PROPS["C01"]["rule"] += "; row g2_2_1_4 (one inline pool of two slots: previous content and new text both need a heap pool table); float literals up to the documented 63 characters"
 PROPS["C11"]["rule"] += "; row dial1111: comments inside kept and discarded parts"
+
+# row misc1 (AUTO_SHRINK=0, ENABLE_ALIGNMENT=0, DEFAULT_NESTING_LIMIT=4, other exponentiation thresholds)
+PROPS["C07"]["quick"]["configs"] = PROPS["C07"]["quick"]["configs"] + ["misc1"]
+PROPS["C07"]["quick"]["per_config"]["misc1"] = {"cases": 300000}
+PROPS["C07"]["thorough"]["configs"] = PROPS["C07"]["thorough"]["configs"] + ["misc1"]
+PROPS["C07"]["thorough"]["per_config"]["misc1"] = {"cases": 3000000}
+PROPS["C04"]["quick"]["configs"] = PROPS["C04"]["quick"]["configs"] + ["misc1"]
+PROPS["C04"]["thorough"]["configs"] = PROPS["C04"]["thorough"]["configs"] + ["misc1"]
+PROPS["C03"]["quick"]["configs"] = PROPS["C03"]["quick"]["configs"] + ["misc1"]
+PROPS["C03"]["thorough"]["configs"] = PROPS["C03"]["thorough"]["configs"] + ["misc1"]
+PROPS["C15"]["quick"]["configs"] = PROPS["C15"]["quick"]["configs"] + ["misc1"]
+PROPS["C15"]["quick"]["per_config"]["misc1"] = {"cases": 200000}
+PROPS["C15"]["thorough"]["configs"] = PROPS["C15"]["thorough"]["configs"] + ["misc1"]
+PROPS["C15"]["thorough"]["per_config"]["misc1"] = {"cases": 1000000}
+PROPS["C02"]["quick"]["configs"] = PROPS["C02"]["quick"]["configs"] + ["misc1"]
+PROPS["C02"]["quick"]["per_config"]["misc1"] = {"cases": 60000}
+PROPS["C02"]["thorough"]["configs"] = PROPS["C02"]["thorough"].get("configs", ["default", "arduino"]) + ["misc1"]
+PROPS["C02"]["thorough"].setdefault("per_config", {})["misc1"] = {"cases": 1000000}
+PROPS["C12"]["quick"]["configs"] = PROPS["C12"]["quick"]["configs"] + ["misc1"]
+PROPS["C12"]["quick"]["per_config"]["misc1"] = {"cases": 1500000, "sweep": False}
+PROPS["C12"]["thorough"]["configs"] = PROPS["C12"]["thorough"]["configs"] + ["misc1"]
+PROPS["C12"]["thorough"]["per_config"]["misc1"] = {"cases": 10000000, "sweep": False}
+for _id in ("C02", "C03", "C04", "C07", "C12", "C15"):
+    PROPS[_id]["rule"] += "; row misc1 (AUTO_SHRINK=0, ENABLE_ALIGNMENT=0, DEFAULT_NESTING_LIMIT=4, exponentiation thresholds 1e5 / 1e-3)"
+PROPS["C03"]["rule"] += "; the options are passed in every documented form (none = default limit, limit alone, filter alone, both in either order)"
+PROPS["C04"]["rule"] += "; references are also obtained through iterators (begin()/++, JsonPair::value()); raw values are given as std::string, const char*, char* and (pointer, size)"
